@@ -401,6 +401,8 @@ def run(rep: Report, tier: str) -> None:
         rep.exemption("R12.6", f"{r[0]}/{r[1]}", why)
         if f"{r[0]}/{r[1]}" not in seen_ref:
             rep.note(f"R12.6 reference site no longer present: {r[0]}/{r[1]}")
+    rep.rule("R12.9", "clause-level names produced by another statement become dependencies of EVERY statement that reads them (`:=` and `<-` producers alike)")
+    unknown_resolution(P, rep, "R12.9")
     rep.analysed = {"ast_node_classes": len(N), "node_bearing_fields": nfields, "validation_methods": nmeth,
                     "per_statement_accumulators": sorted(mutated_in_visits)}
     # ---- R12.7: the transpiler carries nothing from one statement into the next (shared rule RT.3 a/b/d) ----
@@ -443,3 +445,47 @@ def run(rep: Report, tier: str) -> None:
     rep.floor("R12.8 context attribute sets", n128, 8)
     rep.assumptions = ["visit dispatch is by exact class name (`visit_` + type(node).__name__)",
                        "operand-mutation sites present on the reference tree are taken as designed behaviour (listed exemptions)"]
+
+
+def unknown_resolution(P: Program, rep: Report, rule: str) -> None:
+    """DAGAnalyzer.visit_Start ends by turning names that were met inside clauses (and could not be told from component names) into
+    script-level dependencies when SOME statement produces them.  That tail is evaluated (E6) on abstract dependency tables - the
+    statement loop is given an empty child list - for: a name produced by `:=` and read by two other statements; a name produced by
+    a persistent `<-`; a name nobody produces.  Every reader must get the name as an input (a dependency edge: ordering, load/drop
+    schedule), in whatever order the statements are numbered; an unproduced name stays a component reference."""
+    from sa.e6 import Interp, Raised, Unmodelled
+    f = P.func(f"{DAG}.visit_Start")
+
+    class Deps:
+        def __init__(self, outputs=(), persistent=(), inputs=(), unknown=()):
+            self.outputs, self.persistent, self.inputs, self.unknown_variables = list(outputs), list(persistent), list(inputs), list(unknown)
+
+    class Me:
+        _e6_class = DAG
+    scenarios = {
+        "produced-by-assignment/two-readers": ({1: Deps(outputs=["sc"]), 2: Deps(outputs=["A"], inputs=["DS_1"], unknown=["sc", "Me_1"]),
+                                               3: Deps(persistent=["B"], inputs=["DS_1"], unknown=["sc"])}, {"sc", "Me_1"}, {2: ["sc"], 3: ["sc"]}, {"Me_1"}),
+        "readers-before-producer": ({1: Deps(outputs=["A"], inputs=["DS_1"], unknown=["sc"]), 2: Deps(outputs=["B"], inputs=["DS_1"], unknown=["sc"]),
+                                     3: Deps(outputs=["sc"])}, {"sc"}, {1: ["sc"], 2: ["sc"]}, set()),
+        "produced-by-persistent-assignment": ({1: Deps(persistent=["sc"]), 2: Deps(persistent=["A"], inputs=["DS_1"], unknown=["sc"])}, {"sc"}, {2: ["sc"]}, set()),
+        "not-produced": ({1: Deps(outputs=["A"], inputs=["DS_1"], unknown=["Me_1"])}, {"Me_1"}, {}, {"Me_1"}),
+    }
+    for label, (deps, unknown, want_inputs, want_unknown) in scenarios.items():
+        me = Me()
+        me.dependencies, me.unknown_variables, me.udos = deps, set(unknown), {}
+        me.number_of_statements, me.alias, me.is_first_assignment, me.current_deps = 1, set(), False, Deps()
+        node = type("N", (), {"children": []})()
+        before = {k: list(d.inputs) for k, d in deps.items()}
+        try:
+            Interp(P, externals={"copy.copy": lambda x: set(x) if isinstance(x, set) else list(x), "isinstance": lambda o, t: False}).call(f, {"self": me, "node": node})
+        except (Unmodelled, Raised) as e:
+            raise AnalysisError(f"{rule}: DAGAnalyzer.visit_Start outside the evaluator's language: {e}")
+        got_inputs = {k: [x for x in d.inputs if x not in before[k]] for k, d in deps.items() if [x for x in d.inputs if x not in before[k]]}
+        left = {k: list(d.unknown_variables) for k, d in deps.items()}
+        rep.instance(rule, f"unknown-resolution/{label}", nontrivial=True, sample={"new inputs": got_inputs, "still unknown": sorted(me.unknown_variables)})
+        ok = got_inputs == want_inputs and set(me.unknown_variables) == want_unknown and all(v not in left[k] for k, vs in want_inputs.items() for v in vs)
+        if not ok:
+            rep.add(Finding(rule, f"{rule}/unknown-resolution/{label}", f.module.rel, f.node.lineno, f.qualname,
+                            f"names read inside clauses ({label}): statements {sorted(want_inputs)} must get {sorted({v for vs in want_inputs.values() for v in vs})} as an input "
+                            f"(dependency edge); got new inputs {got_inputs}, still unresolved {sorted(me.unknown_variables)}: a reader without the edge is ordered / scheduled as if the "
+                            f"name were a component - it can run before its producer, or the producer's table is dropped before it runs"))
